@@ -77,6 +77,8 @@ def _const_value(node):
     """int / str / bool literal, or integer arithmetic over literals (1 << 16, 4 * 1024, -1): None for anything else"""
     if isinstance(node, ast.Constant) and isinstance(node.value, (int, str, bool)):
         return node.value
+    if isinstance(node, ast.Constant) and isinstance(node.value, bytes):
+        return node.value.decode('latin-1')      # bytes literals: the same sequence sort as str (as in the interpreter)
     if isinstance(node, ast.UnaryOp) and isinstance(node.op, ast.USub):
         v = _const_value(node.operand)
         return -v if isinstance(v, int) and not isinstance(v, bool) else None
